@@ -29,7 +29,7 @@ _Rng.r = _random_mod
 
 
 # element types of array-valued coefficients (the small integers used are exact in all of them)
-DTYPES = ['float64', 'float64', 'float32', 'float16', 'int64', 'int32', 'longdouble']
+DTYPES = ['float64', 'float64', 'float32', 'float16', 'int64', 'int32', 'longdouble', '>f8', '>f4', '>i4']   # incl. non-native byte order (data read from big-endian files)
 
 
 # ---------- random trees (tagged tuples) ----------
